@@ -402,6 +402,12 @@ var layoutHazards = []string{
 	`module m { %H include s { revision-date %V; } uses sg; leaf l { type st; } } submodule s { belongs-to m { prefix m; } revision 2019-01-01; typedef st { type int8; } grouping sg { leaf old { type st; } } } submodule s { belongs-to m { prefix m; } revision 2020-01-01; typedef st { type string; } grouping sg { leaf new { type st; } } }`,
 	`module m { %H revision 2020-01-01; augment /x:c { leaf a { type string; } } import x { prefix x; } deviation /x:c/x:d { deviate %D; } } module m { %H revision 2021-01-01; import x { prefix x; } augment /x:c { leaf a { type string; } } } module x { namespace "urn:x"; prefix x; container c { leaf d { type string; } } }`,
 	`module m { %H include m; } submodule m { belongs-to m { prefix m; } leaf l { type %T; } }`,
+	// deviations of properties the target has only by inheritance (a default or units that come
+	// from its typedef), of leaf-lists with several defaults, of rpc input/output and of choices
+	`module m { %H typedef td { type %T; default %A; units u; } leaf l { type td; } leaf-list ll { type td; default a; default b; } deviation /m:l { deviate %D { default %A; units %A; } } deviation /m:ll { deviate %D { default a; } } }`,
+	`module m { %H typedef td { type string; default k; } leaf l { type td; } deviation /m:l { deviate delete { default %A; } deviate %D { default k; } } }`,
+	`module m { %H rpc r { input { leaf i { type string; } } } deviation /m:r/m:input { deviate %D; } deviation /m:r/m:output { deviate %D { config %A; } } deviation /m:r { deviate %D { default x; } } deviation /m:r/m:input/m:i { deviate %D { mandatory %A; } } }`,
+	`module m { %H choice ch { leaf a { type string; } case b { leaf c { type string; } } default a; } deviation /m:ch { deviate %D { default %A; mandatory %A; } } deviation /m:ch/m:a { deviate %D; } deviation /m:ch/m:b/m:c { deviate %D { type %T; } } }`,
 	`module m { %H revision 2020-01-01; import m { prefix self; revision-date 2019-01-01; } leaf l { type self:t; } } module m { %H revision 2019-01-01; typedef t { type string; } import m { prefix other; revision-date 2020-01-01; } }`,
 	`module m { %H revision 2019-01-01; include s; } module m { %H revision 2020-01-01; include s; } submodule s { belongs-to m { prefix m; } container sc { leaf a { type string; } } } module a { namespace "urn:a"; prefix a; import m { prefix m; revision-date %V; } augment /m:sc { leaf b { type string; } } }`,
 }
